@@ -17,7 +17,6 @@ Definition c01_one (c : c01case) : N * (bool * bool) :=
         end in
       (* correspondence: the model of the engine's strategy predicts the implementation's answer *)
       let corr :=
-        if existsb assign_eq_conflict p then true else
         if stratified p then
           match eval_engine fuel p edb with
           | Some a => match impl with Some ans => set_eqb ans a | None => false end
